@@ -6,7 +6,9 @@ from .models import ATTRS, MULTI, SM_FIELDS
 META = ["#", ":", ";", "\\", "/", "//", "\n", "\r\n", " ", "\t", "=", ","]
 PLAIN = list("abcXYZ019 .-_=,")
 UNI = ["\u00e9", "\u00df", "\u3042", "\u6f22", "\ud55c", "\ufeff", "\x00", "\u3000", "\xa0", "\u20ac",
-       "\u00ff", "\u00b5", "\U0001d11e", "\u2028", "\x85", "\x1c"]
+       "\u00ff", "\u00b5", "\U0001d11e", "\u2028", "\x85", "\x1c",
+       # text that is not in a Unicode normal form (a loader or serializer that normalises shows)
+       "e\u0301", "\u0301", "\u212b", "\u2126", "\ufb01", "\u1100\u1161", "\uff21", "\u0390"]
 KNOWN_SM = [a.upper() for a in ATTRS["sm"]] + ["FREEZES", "ANIMATIONS"]
 KNOWN_SSC = [a.upper() for a in ATTRS["ssc"]] + ["ANIMATIONS"]
 KNOWN_SSC_CHART = [a.upper() for a in ATTRS["sscchart"] if a != "notes"]
@@ -267,7 +269,7 @@ def gen_edit_op(rng, fmt, profile, nchart_hint, domain="roundtrip", weights=None
     w = weights or {}
     kinds = [("set_key", 5), ("set_attr", 4), ("del_key", 2), ("del_attr", 1.5), ("get_attr", 0.7),
              ("get_key", 0.5), ("contains", 0.3), ("iter", 0.2), ("move", 0.8),
-             ("dict_pop", 0.5), ("dict_popitem", 0.3), ("dict_setdefault", 0.6),
+             ("dict_pop", 0.5), ("dict_popitem", 0.3), ("dict_setdefault", 0.6), ("rename_key", 0.5),
              ("charts_append", 1.5), ("charts_insert", 0.7), ("charts_remove", 0.8),
              ("charts_swap", 0.6), ("charts_reverse", 0.3), ("charts_replace", 0.5),
              ("charts_assign", 0.4), ("chart", 6)]
@@ -278,6 +280,18 @@ def gen_edit_op(rng, fmt, profile, nchart_hint, domain="roundtrip", weights=None
         return gen_chart_op(rng, fmt, profile, nchart_hint, domain)
     if kind == "dict_popitem":
         return {"op": kind, "last": rng.random() < 0.5}
+    if kind == "rename_key":
+        # the same value object moved under another key (alias pairs most of the time)
+        pairs = [("STOPS", "FREEZES"), ("BGCHANGES", "ANIMATIONS"), ("TITLE", "TITLETRANSLIT"),
+                 ("ATTACKS", "DISPLAYBPM"), ("ARTIST", "ATTACKS"), ("BANNER", "BACKGROUND")]
+        a, b = rng.choice(pairs)
+        if rng.random() < 0.5:
+            a, b = b, a
+        if rng.random() < 0.25:
+            b = gen_key(rng, fmt, profile)
+            if domain == "roundtrip" and (b == "NOTEDATA" or (fmt == "sm" and b == "NOTES")):
+                b = "SUBTITLE"
+        return {"op": "rename_key", "key": a, "new": b}
     if kind in ("set_key", "del_key", "get_key", "contains", "move", "dict_pop", "dict_setdefault"):
         k = gen_key(rng, fmt, profile)
         if domain == "roundtrip" and (k == "NOTEDATA" or (fmt == "sm" and k == "NOTES")):
@@ -352,7 +366,7 @@ def gen_chart_op(rng, fmt, profile, nchart_hint, domain="roundtrip"):
     kind = wchoice(rng, [("set_key", 4), ("set_attr", 3), ("del_key", 1.5), ("del_attr", 1),
                          ("move", 1.5), ("get_attr", 0.4), ("get_key", 0.3), ("iter", 0.2),
                          ("contains", 0.2), ("set_notes_shared", 1.5), ("dict_pop", 0.6),
-                         ("dict_setdefault", 0.8)])
+                         ("dict_setdefault", 0.8), ("rename_key", 1.0)])
     attrs = sorted(ATTRS["sscchart"])
     if kind == "set_notes_shared":
         # the identity hazard as a history: note data and another property
@@ -361,6 +375,12 @@ def gen_chart_op(rng, fmt, profile, nchart_hint, domain="roundtrip"):
         return {"op": "set_attr", "i": i, "attr": "notes", "value": v, "share": "n",
                 "then": {"op": "set_key", "i": i, "key": rng.choice(KNOWN_SSC_CHART), "value": v,
                          "share": "n" if rng.random() < 0.7 else None}}
+    if kind == "rename_key":
+        # NOTES <-> NOTES2 keeping the very same note data object (exactly one of the two
+        # stays present), or another property moved under another key
+        a, b = rng.choice([("NOTES", "NOTES2"), ("NOTES2", "NOTES"), ("NOTES", "NOTES2"),
+                           ("CREDIT", "DESCRIPTION"), ("ATTACKS", "CREDIT"), ("DISPLAYBPM", "ATTACKS")])
+        return {"op": "rename_key", "i": i, "key": a, "new": b}
     if kind in ("set_key", "del_key", "get_key", "contains", "move", "dict_pop", "dict_setdefault"):
         k = gen_key(rng, "ssc", profile, "chart")
         if domain == "roundtrip":
